@@ -42,6 +42,92 @@ type splitCase struct {
 	label string
 }
 
+// caseExpr evaluates a constant expression over the split variables of a case
+// (integers and booleans; used by "caseonly").
+func caseExpr(e ast.Expr, vals map[string]*big.Int) (iv *big.Int, bv bool, isBool bool, err error) {
+	switch t := e.(type) {
+	case *ast.ParenExpr:
+		return caseExpr(t.X, vals)
+	case *ast.BasicLit:
+		v, ok := new(big.Int).SetString(t.Value, 0)
+		if !ok {
+			return nil, false, false, fmt.Errorf("caseonly: bad literal %s", t.Value)
+		}
+		return v, false, false, nil
+	case *ast.Ident:
+		if v, ok := vals[t.Name]; ok {
+			return v, false, false, nil
+		}
+		return nil, false, false, fmt.Errorf("caseonly: %s is not a split variable", t.Name)
+	case *ast.UnaryExpr:
+		if t.Op == token.NOT {
+			_, b, _, err := caseExpr(t.X, vals)
+			return nil, !b, true, err
+		}
+	case *ast.BinaryExpr:
+		li, lb, lIsB, err := caseExpr(t.X, vals)
+		if err != nil {
+			return nil, false, false, err
+		}
+		ri, rb, _, err := caseExpr(t.Y, vals)
+		if err != nil {
+			return nil, false, false, err
+		}
+		if lIsB {
+			switch t.Op {
+			case token.LAND:
+				return nil, lb && rb, true, nil
+			case token.LOR:
+				return nil, lb || rb, true, nil
+			}
+			return nil, false, false, fmt.Errorf("caseonly: bad boolean operator")
+		}
+		c := li.Cmp(ri)
+		switch t.Op {
+		case token.ADD:
+			return new(big.Int).Add(li, ri), false, false, nil
+		case token.SUB:
+			return new(big.Int).Sub(li, ri), false, false, nil
+		case token.MUL:
+			return new(big.Int).Mul(li, ri), false, false, nil
+		case token.LSS:
+			return nil, c < 0, true, nil
+		case token.LEQ:
+			return nil, c <= 0, true, nil
+		case token.GTR:
+			return nil, c > 0, true, nil
+		case token.GEQ:
+			return nil, c >= 0, true, nil
+		case token.EQL:
+			return nil, c == 0, true, nil
+		case token.NEQ:
+			return nil, c != 0, true, nil
+		}
+	}
+	return nil, false, false, fmt.Errorf("caseonly: unsupported expression")
+}
+
+// casesOf enumerates the split cases of a contract, keeping those its
+// "caseonly" filter admits (the case.cover obligation is built from the same
+// list, so a filter that drops a needed case fails there).
+func casesOf(c *Contract) []splitCase {
+	all := enumCases(c.Fresh)
+	if c.CaseOnly == nil {
+		return all
+	}
+	var out []splitCase
+	for _, sc := range all {
+		_, ok, isB, err := caseExpr(c.CaseOnly, sc.vals)
+		if err != nil || !isB {
+			return all
+		}
+		if ok {
+			out = append(out, sc)
+		}
+	}
+	return out
+}
+
 func enumCases(fresh []*FreshVar) []splitCase {
 	cases := []splitCase{{vals: map[string]*big.Int{}}}
 	for _, f := range fresh {
@@ -101,7 +187,7 @@ func (e *Engine) VerifyFunc(q string, c *Contract, caseFilter func(label string)
 		rep.Inlined = true
 		return nil, rep
 	}
-	cases := enumCases(c.Fresh)
+	cases := casesOf(c)
 	type caseOut struct {
 		obls []*Obligation
 		x    *Exec
@@ -325,6 +411,9 @@ func (x *Exec) runFunc(fd *ast.FuncDecl, c *Contract, sc splitCase, first bool) 
 		fr.returns = append(fr.returns, end)
 	}
 	var exits []*State
+	if traceOn {
+		fmt.Fprintf(os.Stderr, "TRACE %s: %d return states\n", x.qual, len(fr.returns))
+	}
 	for _, r := range fr.returns {
 		r = x.runDefers(r, fr)
 		if r != nil {
@@ -668,7 +757,7 @@ func (x *Exec) stringAxioms() []*Term {
 // verifyLemma: a pure formula "forall vars. requires ==> ensures".
 func (e *Engine) verifyLemma(q string, c *Contract, rep *FuncReport) ([]*Obligation, *FuncReport) {
 	var all []*Obligation
-	cases := enumCases(c.Fresh)
+	cases := casesOf(c)
 	for _, sc := range cases {
 		x := e.newExec(q, c)
 		x.caseLabel = sc.label
@@ -870,7 +959,7 @@ func (x *Exec) caseCoverage(fd *ast.FuncDecl, c *Contract, sig *types.Signature,
 		}
 	}
 	var alts []*Term
-	for _, sc := range enumCases(c.Fresh) {
+	for _, sc := range casesOf(c) {
 		for _, f := range c.Fresh {
 			t := y.eng.typeByName(f.Type)
 			w, _ := intInfo(t)
@@ -961,6 +1050,28 @@ func (x *Exec) checkFrame(exit, pre *State, c *Contract, pos token.Pos) {
 	sort.Strings(keys)
 	var cs []*Term
 	var changed []string
+	// instance-level entries: key -> refs whose cell may change
+	inst := map[string][]*Term{}
+	var entry *State
+	if len(c.InstMods) > 0 {
+		entry = pre.clone()
+		for obj, v := range pre.env {
+			if _, isVar := obj.(*types.Var); isVar {
+				entry.names[obj.Name()] = v
+			}
+		}
+	}
+	for _, im := range c.InstMods {
+		ref, structT, ft, ok := x.instTarget(entry, im)
+		if !ok {
+			continue
+		}
+		sn := structName(structT)
+		for _, l := range x.leavesOf(ft) {
+			key := sn + "." + join(im.Field, l.path)
+			inst[key] = append(inst[key], ref)
+		}
+	}
 	for _, k := range keys {
 		if allowed(k) || x.initKeys[k] {
 			continue
@@ -978,7 +1089,11 @@ func (x *Exec) checkFrame(exit, pre *State, c *Contract, pos token.Pos) {
 				// objects allocated by this function (refs >= alloc on entry,
 				// e.g. address-taken locals) are not visible to the caller
 				r := x.b.Fresh("frame.ref", IntSort)
-				eq = x.b.Implies(x.b.And(x.b.Le(x.b.Int(0), r, true), x.b.Lt(r, pre.alloc, true)), x.b.Eq(x.b.Select(a, r), x.b.Select(o, r)))
+				ante := []*Term{x.b.Le(x.b.Int(0), r, true), x.b.Lt(r, pre.alloc, true)}
+				for _, ir := range inst[k] {
+					ante = append(ante, x.b.Not(x.b.Eq(r, ir)))
+				}
+				eq = x.b.Implies(x.b.And(ante...), x.b.Eq(x.b.Select(a, r), x.b.Select(o, r)))
 			}
 		}
 		cs = append(cs, eq)
